@@ -24,7 +24,7 @@ from harness.c17 import StopAt
 
 LINED = re.compile(r'^Line \d+:', re.M)
 INTERNAL = re.compile(r"eval stack underflow|pop from an empty|has no attribute 'get_address'|"
-                      r"<OpCode\.|has no attribute 'parent'|incorrect operand|object has no attribute 'set_loop_var'|"
+                      r"<OpCode\.|<Operand\.|has no attribute 'parent'|incorrect operand|object has no attribute 'set_loop_var'|"
                       r"has no attribute 'return_addr'|has no attribute 'params'|"
                       r"'NoneType' object has no attribute 'vars'|KeyError|has no attribute '_\w+'|at instruction None")
 HALT = re.compile(r'division by zero|modulo by zero|float modulo|float division')
@@ -51,6 +51,8 @@ CORPUS = ['return 5 print 1', 'return', 'assign t -8:00', 'hue -8:00', 'assign t
           'print {not 1}', 'print {1 and}', 'print {1 < 2 < 3}', 'print {"a" + "b"}', 'print {"a" == "a"}', 'assign s "a" print {s + 1}', 'print {2 ^ 0.5}', 'print {0 ^ -1}',
           'print {1 % 0}', 'print {10 ^ 400}', 'repeat 1000000000 begin end', 'define f begin [f] end', 'assign x 1 define f with x begin return x end print [f]',
           'hue {{1 + 2} + 3} print hue', 'assign x {{4}} print x', 'print {3 * {1 + {2}}}', 'print {[round {1.5}] + {2}}', 'if {{1 < 2} and {2 < 3}} on all',
+          'on default', 'off default', 'on "Top" row 1', 'off "Top" column 1 2', 'on "Top" begin stage row 1 end', 'define u1 zz', 'define u2 zz print u2',
+          'assign n1 not 5 print n1', 'if not 0 print 1', 'hue not 0 print hue', 'repeat while not 1 begin on all end', 'printf "{}" not 1',
           'print [round]', 'print [round 1 2]', 'print [random 5 1]', 'print [cycle "a"]', 'hue [undefined_fn 1]']
 
 
@@ -68,6 +70,44 @@ def expr_soup(rng):
     """Token soup where a value is expected: most texts are rejected, the accepted ones must run without a VM fault."""
     body = ' '.join(rng.choice(EXPR_VOCAB) for _ in range(rng.randint(1, 9)))
     return 'assign x 3 assign s "t" define f with a begin return a end\n' + rng.choice(EXPR_FRAMES) % body
+
+
+VERBS = ['on', 'off', 'set', 'get', 'stage', 'define v', 'define f with a', 'assign v', 'hue', 'time', 'time at', 'print', 'println', 'printf "{}"', 'if',
+         'repeat', 'repeat with i from', 'repeat in', 'repeat all as x', 'units', 'wait', 'return', 'break', 'duration']
+OPERANDS = ['all', 'default', 'group', 'location', '"A"', '"MX"', '"MZ"', 'x', 'y', 'f', 'undefined_name', 'row', 'column', 'zone', 'begin', 'end', 'and', 'as',
+            'not', 'or', '0', '1', '2', '5', '-1', '1.5', '8:00', '{x}', '{1 + x}', '[f 1]', 'with', 'from', 'to', 'cycle', 'raw', 'rgb', 'logical', '"s"']
+
+
+def stmt_soup(rng):
+    """One or two statements made of a real verb and a few words that can follow some verb: far more of these get past the
+    first token than plain soup does - `on default`, `on "MX" row 1`, `define v undefined_name`, `assign v not 5`."""
+    lines = ['assign x 3 define f with a begin return a end']
+    for _ in range(rng.randint(1, 2)):
+        lines.append(rng.choice(VERBS) + ' ' + ' '.join(rng.choice(OPERANDS) for _ in range(rng.randint(0, 5))))
+    if rng.random() < 0.5:
+        lines.append('print x print v')
+    return '\n'.join(lines)
+
+
+def deep(rng):
+    """Nesting far beyond anything sensible: braces, parentheses, brackets, blocks."""
+    n = rng.choice([20, 60, 200, 400, 1000, 3000])
+    kind = rng.choice(['brace', 'paren', 'bracket', 'if', 'repeat', 'mixed', 'not', 'minus'])
+    if kind == 'brace':
+        return 'print ' + '{' * n + '1' + '}' * n
+    if kind == 'paren':
+        return 'print {' + '(' * n + '1' + ')' * n + '}'
+    if kind == 'bracket':
+        return 'print ' + '[round ' * n + '1' + ']' * n
+    if kind == 'if':
+        return 'if 1 begin ' * n + 'on all' + ' end' * n
+    if kind == 'repeat':
+        return 'repeat 1 begin ' * n + 'on all' + ' end' * n
+    if kind == 'not':
+        return 'print {' + 'not ' * n + '1}'
+    if kind == 'minus':
+        return 'print {' + '-' * n + '1}'
+    return 'print {' + '({' * n + '1' + '})' * n + '}'
 
 
 def mutate(text, rng):
@@ -103,7 +143,7 @@ def inject(rng):
         'redefine-routine': ['define r1 on all define r1 off all', 'define r2 begin on all end define r2 5'],
         'undefined-name': ['hue zz', 'assign y zz', 'print zz', 'zz', 'zz 5', '[zz]', 'set zz', 'on group zz', 'print {1 + zz}', 'hue [zz 1]',
                            'repeat zz begin on all end', 'if zz on all', 'assign zz {zz + 1}', 'assign zz zz', 'assign zz [round zz]',
-                           'define f with a begin assign acc_ {acc_ + a} end f 1', 'set "Top" zone zz', 'define f with a begin print b_ end f 1'],
+                           'define f with a begin assign acc_ {acc_ + a} end f 1', 'define u1 zz', 'define u2 zz print 1', 'define u3 zz on all', 'set "Top" zone zz', 'define f with a begin print b_ end f 1'],
         'nested-routine': ['define outer begin define inner on all end', 'define o2 with a begin define i2 with b begin print b end end'],
         'missing-end': ['repeat 2 begin on all', 'if {1 < 2} begin on all', 'define f begin on all', 'set "Top" begin stage row 1', 'repeat begin if 1 begin on all end'],
         'unbalanced': ['hue {1 + 2', 'hue {(1 + 2}', 'hue {1 + 2)}', 'print [round 1', 'hue {1 + 2}}', 'define f with a begin return {a end', 'print ]',
@@ -176,6 +216,10 @@ def run(report, replay=None):
         inputs.append(('soup', '', soup(rng)))
     for _ in range(1500 * scale):
         inputs.append(('soup', '', expr_soup(rng)))
+    for _ in range(2500 * scale):
+        inputs.append(('soup', '', stmt_soup(rng)))
+    for _ in range(24 * scale):
+        inputs.append(('soup', '', deep(rng)))
     valid = [gen_lang.make_record(0, lang_props.hash_seed(report.seed, 'c06', i), rng.choice(['general', 'routines', 'loops', 'matrix', 'print', 'nested']), 18)['text']
              for i in range(60 * scale)]
     for _ in range(1500 * scale):
